@@ -69,10 +69,11 @@ def model_theorems(run, models):
         os.remove(path)
 
 
-def check(run, prop, claims, fams, rule, assumptions, level=LEVEL_MC, keep=None, drive_kw=None, extra_cov=None, models=None):
+def check(run, prop, claims, fams, rule, assumptions, level=LEVEL_MC, keep=None, drive_kw=None, extra_cov=None, models=None,
+          extra_progs=None):
     if models:
         model_theorems(run, models)
-    progs = gather(run, fams)
+    progs = gather(run, fams) + (extra_progs or [])
     if keep:
         progs = [p for p in progs if keep(p)]
     progs = assign_ids(progs, prop + "-")
@@ -231,13 +232,48 @@ def c13(run):
                  level="exploration", drive_kw={"race": True, "workers": 4, "timeout_ms": 60000})
 
 
+def vbi_sweep(run):
+    """Thorough tier: the exhaustive Go sweep. Returns (extra programs, coverage keys)."""
+    import subprocess
+    binp = run.build_driver()
+    bits = int(os.environ.get("VERIF_SWEEP_BITS", "28"))
+    pr = subprocess.run([binp, "sweep", "-bits", str(bits)], capture_output=True, text=True, timeout=7200)
+    if pr.returncode != 0:
+        raise Infra("sweep failed: " + pr.stderr[-1000:])
+    res = json.loads(pr.stdout)
+    vlib.log("sweep: %d evaluations, %d disagreements" % (res["evaluations"], res["disagreements"]))
+    return res["programs"], {"sweep_evaluations": res["evaluations"], "sweep_disagreements_resubmitted_to_tlc": len(res["programs"]),
+                             "exhaustive": bits >= 28,
+                             "sweep_rule": "all values 0..2^%d-1 through encoder and both decoders; all byte sequences of length "
+                                           "<= 4; all four-continuation prefixes x fifth byte in {00,01,7f,80,ff}; compared with the "
+                                           "Go transcription of Bytes!VBI4/VBIRead (validated by TLC on every VBI event of this run); "
+                                           "each disagreement is replayed as a program and judged by TLC" % bits}
+
+
+def vbi_lemma(run):
+    """Apalache proves the closed-form lemma for all 2^28 values (about 2 minutes)."""
+    import subprocess, time
+    t0 = time.time()
+    out = os.path.join(run.dir, "apalache-out")
+    pr = subprocess.run(["apalache-mc", "check", "--init=Init", "--inv=Lemma", "--length=0", "--out-dir=" + out,
+                         os.path.join(run.specdir, "VBILemma.tla")], capture_output=True, text=True, timeout=3600, cwd=run.dir)
+    if "EXITCODE: OK" not in pr.stdout:
+        raise Infra("Apalache did not prove VBILemma:\n" + pr.stdout[-1500:])
+    return {"apalache_lemma": "VBILemma!Lemma holds for all v in 0..268435455 (apalache-mc check --length=0)",
+            "apalache_wall_s": round(time.time() - t0, 1)}
+
+
 def c15(run):
-    return check(run, "C15", {"C15"}, [("vbi", ONE_PART), ("build", [[3], [10]])],
+    extra, cov = ([], {})
+    if run.tier == "thorough":
+        extra, cov = vbi_sweep(run)
+        cov.update(vbi_lemma(run))
+    return check(run, "C15", {"C15"}, [("vbi", ONE_PART), ("build", [[3], [10]])], extra_progs=extra, extra_cov=cov, rule=(
                  "values within 300 of 0, 128, 16384, 2097152, 268435455 and all 2^k, 2^k +- 1 through the encoder and both "
                  "decoders behind hook H1; all byte sequences of length <= 4 (thorough 5) over {00,01,7f,80,81,ff}; five-byte "
                  "continuations; the subscription identifier and remaining length through the public API; TLC compares every "
-                 "result with Bytes!VBI / VBIRead",
-                 ["non-minimal forms are neither required nor forbidden: only agreement of the two decoders is demanded there"])
+                 "result with Bytes!VBI / VBIRead"),
+                 assumptions=["non-minimal forms are neither required nor forbidden: only agreement of the two decoders is demanded there"])
 
 
 def replay(run, prop, path):
